@@ -144,6 +144,11 @@ fn one_history(run: &Run, case: u64) {
     p.max_plain_size = 4096;
     p.hostile_mtimes = false;
     let mut w = World::new("c07", &mut rng, p, run.seed ^ case);
+    if case % 25 == 3 {
+        // scale: hundreds of entries and blocks, long names, deep nesting
+        w.widen(&mut rng);
+        run.count("histories_on_wide_and_deep_trees", 1);
+    }
     let n_steps = 8 + rng.below(run.tier.pick(10, 16)) as usize;
     let mut descs: Vec<String> = Vec::new();
     let mut interesting = false;
